@@ -122,6 +122,24 @@ PROPS["C09"] = dict(
     assumptions=["values are tokens"],
 )
 
+PROPS["C18"] = dict(
+    imports=["Client.PutText", "Corr.Run_C18"], case_type="Run_C18.case", check="Run_C18.check", shrink=False,
+    extra_builds=[dict(out="setec-cli", pkg="./cmd/setec")],
+    technique="Rocq proof (value-parametric store theorems; utf8/TrimSpace/flag-policy model with exact send/refuse characterisation) + the built setec CLI, utf8.Valid and bytes.TrimSpace run against the model in the kernel; byte-for-byte round trips through every retrieval path",
+    level_text=("Machine-checked theorems: (1) for EVERY value type the store returns for a version exactly the value put, keeps it until deleted, and the persisted document decodes to the same "
+                "state (the model never inspects a value, so this covers empty, binary, invalid UTF-8, NUL, newline and arbitrarily large values alike); (2) for the command: what is sent is "
+                "the input itself, or - only under --trim-space without --verbatim, for valid UTF-8 with outer white space - the input minus exactly a run of Unicode white space at each end; "
+                "it is refused iff text with outer white space has neither flag, or the value to send is empty without --empty-ok; binary input is always sent verbatim. Tied to the code by "
+                "running Go's utf8.Valid (exhaustive over a 26-byte boundary alphabet) and bytes.TrimSpace (all Unicode space kinds and look-alikes) and the BUILT cmd/setec binary (all 8 "
+                "flag combinations x file/pipe x input classes against a loopback server that records whether a request arrived and the bytes received) against the model in the kernel, and by "
+                "byte-for-byte round trips of 7 value classes up to 1 MiB (4 MiB thorough) through DB get/get-version, HTTP client, Store, cache file, cache-only restart, FileClient and server restart."),
+    level_note="Trusted: Coq kernel+VM; the round-trip comparison itself is a runtime byte comparison in the harness (values of megabytes are not shipped to the kernel); terminal input of the CLI is not exercised.",
+    rule=("26 exhaustive utf8.Valid rows + random valid/invalid strings + TrimSpace texts + `setec put` runs (flag combinations x source x input class) + round trips (class x size); "
+          "a text/CLI case is non-trivial if the input is valid UTF-8 with outer white space; distinct by input text and flags"),
+    explain="utf8.Valid, bytes.TrimSpace or the `setec put` command behaved differently from the text-policy model, or a value came back altered from some retrieval path",
+    assumptions=["loopback HTTP works in the sandbox", "the CLI is exercised with file and pipe input only"],
+)
+
 # properties not (yet) claimed, with the reason
 NOT_APPLICABLE = {
 }
